@@ -2,6 +2,7 @@ package props
 
 import (
 	"math/big"
+	"strings"
 
 	"verifmc/engine"
 	"verifmc/world"
@@ -32,12 +33,23 @@ func c06Step(x *engine.Exec) []engine.Failure {
 	var out []engine.Failure
 	v := x.Op.V
 	f := world.Rat(x.Res.EffFrac)
-	aborted := x.Res.Err != nil
+	aborted := x.Res.Err != nil || x.Res.HookErr != ""
+	if aborted {
+		x.Cnt.Inc("slash.callback_aborted")
+	}
+	// Only what the LATER stages of the callback do (the cut of pending unbondings forwarded out of custody) can be
+	// explained by an abort: the bonded stake is slashed first, before any stage that can fail.
 	cause := func(c string) string {
 		if aborted {
+			if strings.Contains(x.Res.HookErr, "insufficient funds") || (x.Res.Err != nil && strings.Contains(x.Res.Err.Error(), "insufficient funds")) {
+				return "reward-pool-short"
+			}
 			return "callback-aborted"
 		}
 		return c
+	}
+	if x.Res.EffFrac.IsNil() || x.Res.EffFrac.IsZero() {
+		return nil // x/staking computed a zero burn: the hook is not called
 	}
 	g := slashFactors(prev, v, f)
 	// destinations of pending redelegations out of v are C07's business
@@ -106,10 +118,10 @@ func c06Step(x *engine.Exec) []engine.Failure {
 					c = "shares-burn-of-redelegation-destination-on-same-validator"
 				}
 			}
-			out = append(out, fail("proportional", cause(c), "slash(v%d,%s): %s position %s worth %s -> %s, expected %s (g=%s)", v, x.Op.F, kind, p.Key(), world.RatF(p.Value), world.RatF(nv), world.RatF(want), world.RatF(gd)))
+			out = append(out, fail("proportional", c, "slash(v%d,%s): %s position %s worth %s -> %s, expected %s (g=%s)", v, x.Op.F, kind, p.Key(), world.RatF(p.Value), world.RatF(nv), world.RatF(want), world.RatF(gd)))
 		}
 		if ok && np.Shares.Cmp(p.Shares) != 0 {
-			out = append(out, fail("targeted", cause("delegation-shares-changed"), "slash(v%d,%s): delegation shares of %s changed", v, x.Op.F, p.Key()))
+			out = append(out, fail("targeted", "delegation-shares-changed", "slash(v%d,%s): delegation shares of %s changed", v, x.Op.F, p.Key()))
 		}
 	}
 	// per validator W != v: the sum of position values scales by g (value removed under C07 stays on W)
@@ -132,7 +144,7 @@ func c06Step(x *engine.Exec) []engine.Failure {
 					}
 				}
 			}
-			out = append(out, fail("conserving", cause(c), "slash(v%d,%s): positions on v%d (%s) sum %s -> %s, expected g*sum = %s", v, x.Op.F, w, den, world.RatF(sp), world.RatF(sumNext[wk]), world.RatF(want)))
+			out = append(out, fail("conserving", c, "slash(v%d,%s): positions on v%d (%s) sum %s -> %s, expected g*sum = %s", v, x.Op.F, w, den, world.RatF(sp), world.RatF(sumNext[wk]), world.RatF(want)))
 		}
 	}
 	// staked total untouched; custody drops only by what C07 forwards from pending unbondings
@@ -199,10 +211,24 @@ func init() {
 					Required: []string{"slash.checked", "slash.validator_with_several_assets", "position.is_redelegation_destination", "slash.validator_with_warmup_asset_stake"},
 				}
 			}
-			if tier == "thorough" {
-				return []*engine.Scenario{mk("c06-slash", [][]world.Op{s1, s2, s3, s4}, []int{3, 3, 0, 2, 0}, 7)}
+			// the slash arrives through x/staking and a later stage of the callback fails (overdrawn rewards pool): the bonded
+			// stake must have been slashed proportionally all the same
+			full := c07Config()
+			full.FullPipeline = true
+			ab := &engine.Scenario{
+				Property: "C06", Name: "c06-aborted-callback", Cfg: full, Stores: world.AllStores,
+				Seeds: [][]world.Op{c08AbortSeed()}, ClassNames: classNames, Budgets: tierPick(tier, []int{2, 1, 0, 2, 0}, []int{2, 2, 0, 2, 0}), MaxDepth: tierPick(tier, 5, 6),
+				NewRef: func(w *world.World, root *engine.Node) engine.Ref { return newPendRef() },
+				Ops: Alpha{SlashVals: []int{0, 1}, SlashF: []string{"0.05", "0.5", "1"}, BlockDts: dts(1), Extra: func(n *engine.Node) []world.Op {
+					return []world.Op{{K: world.KDelegate, D: 1, V: 0, Denom: "aaa", Amt: "7", Class: ClsUser}, {K: world.KUndelegate, D: 1, V: 0, Denom: "aaa", Amt: "5", Class: ClsUser}}
+				}}.Ops,
+				Step: c06Step, SeedStep: true,
+				Required: []string{"slash.checked", "slash.callback_aborted"},
 			}
-			return []*engine.Scenario{mk("c06-slash", [][]world.Op{s1, s2, s3, s4}, []int{2, 2, 0, 1, 0}, 5)}
+			if tier == "thorough" {
+				return []*engine.Scenario{mk("c06-slash", [][]world.Op{s1, s2, s3, s4}, []int{3, 3, 0, 2, 0}, 7), ab}
+			}
+			return []*engine.Scenario{mk("c06-slash", [][]world.Op{s1, s2, s3, s4}, []int{2, 2, 0, 1, 0}, 5), ab}
 		},
 		Assumptions: []string{
 			"fractions {0.01%, 1%, 5%, 1/3, 50%, 99%, 100%}; the case f=1 with the slashed validator holding every share of the asset (g undefined) is excluded from the proportionality check, staked total and custody are still checked",
